@@ -261,7 +261,12 @@ def _matrix_inverse_root_eigen(
     # make eigenvalues > 0 (if necessary)
 
     if enhance_stability:
-        L += -torch.minimum(lambda_min - epsilon, torch.as_tensor(0.0))
+        # NOTE: L contains the eigenvalues of A + epsilon * I here. The shift is applied as
+        # (L - lambda_min) + epsilon so that the smallest eigenvalue becomes exactly epsilon;
+        # shifting by -(lambda_min - epsilon) loses epsilon (and yields a zero eigenvalue, i.e.,
+        # an infinite inverse root) whenever epsilon is below the resolution of lambda_min.
+        if lambda_min < epsilon:
+            L = (L - lambda_min) + epsilon
     else:
         L += -torch.minimum(lambda_min, torch.as_tensor(0.0))
         # and add the epsilon
